@@ -110,7 +110,11 @@ Result tostring_execute(const Plan &p, const ExecCtx &c) {
         int n = 1 + (int)(p.seed % 5);
         for (int k = 0; k < n; k++) { Outcome x = ps.call(mk(P_NEXT)); if (k % 2 == 0 && x.ret) ps.call(mk(P_ENTER_OBJ)); }
         if (pre == 2) { ps.call(mk(P_NEXT_ENSURE, 0, Bytes(), 4)); ps.call(mk(P_FIELD_NULL, 0)); }      // latch an error
-        if (pre == 3) { ps.src = p.doc; ps.rewrite(p.doc); }                                            // repaired in place
+        if (pre == 3) {
+            if (p.seed & 1) ps.call(mk(P_VERIFY)); else ps.call(mk(P_TO_STRING_NULL, 3, Bytes(), nice));   // the damaged message is rejected by verify / to_string themselves
+            ps.src = p.doc; ps.rewrite(p.doc);                                                            // repaired in place
+            if (p.seed & 2) ps.call(mk(P_RESET));
+        }
         bump(r.cnt, fmt("tostring.prior_use_%d", pre));
         if (ps.err() != 0) bump(r.cnt, std::string("probe.to_string_on_parser_in_error_") + err_name(ps.err()));
     }
